@@ -11,6 +11,10 @@ Proved here, about the model `EncTotal.lean` (tied to the code by the differenti
 * `quantiser_range_*`, `packing_cannot_overflow`, `packed_formats_fit` — every scalar quantiser
   of src/color/formats.rs stays within its bit field for EVERY input including NaN and the
   infinities, so no shift of the packing pushes a bit out or into a neighbouring field;
+* `quantiser_range_shared_exp`, `shared_exp_channel_bounds`, `shared_exp_scaling_exact` —
+  R9G9B9E5 (`rgb9995f::from_f32`) at the bit level, on binary32 bit patterns with a software
+  binary32 (no assumption on the rounding): for EVERY triple of patterns no `debug_assert!`
+  fails, the mantissas are at most 511, the exponent at most 31, the word is the 9+9+9+5 packing;
 * `refine_loops_bounded` — the only data-dependent loop of the block encoders runs at most
   `max_iter` times, and `max_iter ≤ 10` at every quality;
 * `empty_image_ok` — empty images give `Ok` and not a single byte, in every family, even with
@@ -23,6 +27,7 @@ property's "never panics" clause.
 -/
 import DdsModel.Proofs.EncTotal
 import DdsModel.Proofs.EncQuant
+import DdsModel.Proofs.SharedExp
 namespace Dds.C15
 open Dds Dds.EncTotal
 
@@ -259,14 +264,78 @@ theorem quantiser_range_small_float (f16 : Nat) :
     fpE5 6 f16 < 2 ^ 11 ∧ fpE5 5 f16 < 2 ^ 10 :=
   ⟨fpE5_lt 6 (by omega) f16, fpE5_lt 5 (by omega) f16⟩
 
-/-- **R9G9B9E5, partial.** Proved: a channel whose scaled value `c · 2^(24−exp)` is at most 512
-gets a mantissa of at most 512 (first pass), at most 256 gives at most 256 (second pass, after
-`exp += 1`), and with the top exponent 31 the clamp to 65408 gives at most 511, so the second
-pass — and with it `exp = 32` — does not happen there.
-Missing for the full claim (`r_mant, g_mant, b_mant ≤ 511`, `exp ≤ 31`): that the exponent taken
-from the bits of the largest channel makes every scaled value `< 512`; this step is bit-level
-float code and is exercised by the `debug_assert!`s in the checked profile, not proved. -/
-theorem quantiser_range_shared_exp_partial (R : Rounding) (exp : Nat) (c : Rat)
+/-- **R9G9B9E5, every input** (`rgb9995f::from_f32` with `util::clamp_0_max`, `util::two_powi`;
+model `SharedExp.fields` / `SharedExp.fromF32` on binary32 bit patterns, every `f32` operator one
+correctly rounded operation of `ConvF32.lean`).  For every triple of bit patterns — NaN of any
+payload, the infinities, negative values, both zeros, subnormals, huge values; `r g b` are not
+even required to be below `2^32` — and every choice `tie` of the zero that `f32::max` returns on a
+`-0.0`/`+0.0` tie at each of its five call sites:
+* the model answers `some`: neither `debug_assert!(exp <= 31)`, nor the three
+  `debug_assert!(x_mant <= 511)`, nor the assertion inside `two_powi`, nor an `i8` overflow in
+  `-(exp as i8 - 24)` can fire (so the checked and the release profile compute the same word);
+* `r_mant, g_mant, b_mant ≤ 511` and `exp ≤ 31`;
+* the returned `u32` is exactly the field packing `pack` of 9 + 9 + 9 + 5 bits: no `<<` drops or
+  overlaps a bit. -/
+theorem quantiser_range_shared_exp (tie : Nat → Bool) (r g b : Nat) :
+    ∃ rm gm bm e, SharedExp.fields tie r g b = some (rm, gm, bm, e) ∧
+      rm ≤ 511 ∧ gm ≤ 511 ∧ bm ≤ 511 ∧ e ≤ 31 ∧
+      SharedExp.fromF32 tie r g b = some (pack [(rm, 9), (gm, 9), (bm, 9), (e, 5)]) ∧
+      pack [(rm, 9), (gm, 9), (bm, 9), (e, 5)] < 2 ^ 32 :=
+  SharedExp.fromF32_range tie r g b
+
+/-- **R9G9B9E5, the mechanism, per channel.**  `c` is a clamped non-zero channel (a pattern in
+`[1, 0x477F8000]`, i.e. a positive value up to 65408.0, subnormals included) whose exponent field
+is at most `exp + 111` — true of every channel when `exp = max(raw_exp − 111, 0)` is computed from
+the exponent field `raw_exp` of the largest channel.  Then
+* first pass: `(c * 2^(24−exp) + 0.5) as u32 ≤ 512` (the scaled value is below 512, the product is
+  rounded to at most 512.0, the sum to at most 512.5);
+* second pass, after `exp += 1`: at most 256 — a 512 never survives;
+* `exp = 31`: at most 511 already in the first pass (65408 · 2^-7 = 511, the sum is at most 511.5),
+  so the second pass is not entered there and `exp` never becomes 32.
+A zero channel (either sign) has mantissa 0 at every scale. -/
+theorem shared_exp_channel_bounds (c exp : Nat) (hc1 : 1 ≤ c) (hc2 : c ≤ SharedExp.c65408)
+    (he : exp ≤ 31) (hX : CF32.expField c ≤ exp + 111) :
+    SharedExp.mantOf c (CF32.twoPowi (24 - exp)) ≤ 512 ∧
+    SharedExp.mantOf c (CF32.twoPowi (24 - ((exp + 1 : Nat) : Int))) ≤ 256 ∧
+    (exp = 31 → SharedExp.mantOf c (CF32.twoPowi (24 - exp)) ≤ 511) ∧
+    (∀ n : Int, -126 ≤ n → n ≤ 127 → SharedExp.mantOf 0 (CF32.twoPowi n) = 0 ∧
+      SharedExp.mantOf CF32.signBit (CF32.twoPowi n) = 0) := by
+  refine ⟨SharedExp.mantOf_le_first c exp hc1 hc2 he hX,
+    SharedExp.mantOf_le_second c (exp + 1) hc1 hc2 (by omega) (by omega), ?_, ?_⟩
+  · intro h31
+    subst h31
+    exact SharedExp.mantOf_le_top c hc1 hc2
+  · intro n h1 h2
+    exact ⟨SharedExp.mantOf_zero 0 n (Or.inl rfl) h1 h2,
+      SharedExp.mantOf_zero CF32.signBit n (Or.inr rfl) h1 h2⟩
+
+/-- **What is used of binary32 multiplication: scaling by a power of two.**  `c * two_powi(n)`
+for a positive finite `c` is ONE rounding of the exact product (`roundPack`, round to nearest
+even with gradual underflow); when `c` is normal and the result is in the normal range it is
+EXACT — the exponent field moves by `n`, the fraction bits are untouched — and in every case
+(subnormal `c`, underflow of the result) it is at most the pattern of the power of two
+`2^(K+1)` above the exact product.  Nothing is assumed: these are theorems about the software
+binary32 that the differential run ties to the hardware. -/
+theorem shared_exp_scaling_exact (c : Nat) (n : Int) (hc : c < CF32.posInf) (h1 : -126 ≤ n)
+    (h2 : n ≤ 127) :
+    CF32.fmul c (CF32.twoPowi n) =
+      CF32.roundPack false (CF32.mant c * 2 ^ 23) (CF32.expo c + (n - 23)) ∧
+    (1 ≤ CF32.expField c → 1 ≤ (CF32.expField c : Int) + n → (CF32.expField c : Int) + n ≤ 254 →
+      CF32.fmul c (CF32.twoPowi n) =
+        ((CF32.expField c : Int) + n).toNat * 2 ^ 23 + CF32.fracField c) ∧
+    (∀ K : Int, CF32.mant c ≠ 0 → (CF32.expField c : Int) + n - 127 ≤ K → -127 ≤ K →
+      CF32.fmul c (CF32.twoPowi n) ≤ (K + 128).toNat * 2 ^ 23) :=
+  ⟨SharedExp.fmul_twoPowi c n hc h1 h2,
+   fun hX hr1 hr2 => SharedExp.fmul_twoPowi_exact c n hc h1 h2 hX hr1 hr2,
+   fun K hc0 hK hK2 => SharedExp.fmul_twoPowi_le c n K hc hc0 h1 h2 hK hK2⟩
+
+/-- **R9G9B9E5 for any monotone rounding** (the earlier, abstract form; kept because it does not
+depend on binary32: it also covers an evaluation in higher precision).  A channel whose scaled
+value `c · 2^(24−exp)` is at most 512 gets a mantissa of at most 512, at most 256 gives at most
+256, and with `exp = 31` the clamp to 65408 gives at most 511.  That the exponent read from the
+bits of the largest channel makes every scaled value `< 512` is the bit-level step proved in
+`quantiser_range_shared_exp` / `shared_exp_channel_bounds`. -/
+theorem quantiser_range_shared_exp_any_rounding (R : Rounding) (exp : Nat) (c : Rat)
     (h512 : R.fixes (512 + 1/2)) (h256 : R.fixes (256 + 1/2)) (h511 : R.fixes (511 + 1/2)) :
     (c * (2 : Rat) ^ ((24 : Int) - exp) ≤ 512 → mant9995 R exp c ≤ 512) ∧
     (c * (2 : Rat) ^ ((24 : Int) - exp) ≤ 256 → mant9995 R exp c ≤ 256) ∧
@@ -386,6 +455,22 @@ example : qUnormMin Rounding.exact 31 8 .nan = 31 ∧ qUnormSat Rounding.exact 2
   decide +kernel
 -- ∞ − ∞ in a chroma row is NaN and is cast to 0
 example : qYuv10 Rounding.exact (uRow (1025/2)) .pinf .pinf .pinf = 0 := by decide +kernel
+-- R9G9B9E5 on bit patterns: 1.0/0.5/0.25 share exponent 16; 1023.0 takes the second pass (the first
+-- gives 512 at exponent 25, the result is 256 at exponent 26); 65408.0 with NaN and -inf is
+-- (511, 0, 0) at the top exponent 31; +inf, -0.0 and a subnormal: the same; all-NaN is the word 0
+example : SharedExp.fields (fun _ => false) 0x3F800000 0x3F000000 0x3E800000 = some (256, 128, 64, 16) ∧
+    SharedExp.fields (fun _ => true) 0x447FC000 0 0x3F800000 = some (256, 0, 0, 26) ∧
+    SharedExp.mantOf 0x447FC000 (CF32.twoPowi (24 - 25)) = 512 ∧
+    SharedExp.fields (fun _ => false) 0x477F8000 0x7FC00000 0xFF800000 = some (511, 0, 0, 31) ∧
+    SharedExp.fields (fun _ => true) 0x7F800000 0x80000000 0x00000001 = some (511, 0, 0, 31) ∧
+    SharedExp.fromF32 (fun _ => false) 0x7FC00000 0xFFC00001 0x7F800001 = some 0 ∧
+    SharedExp.fromF32 (fun _ => false) 0x3F800000 0x3F000000 0x3E800000 = some 0x81010100 := by
+  decide +kernel
+-- the hypotheses of `shared_exp_channel_bounds` and of the exactness clause are satisfiable:
+-- c = 1023.0 (exponent field 136 = 25 + 111), and 1023.0 * 2^-1 = 511.5 exactly
+example : 1 ≤ 0x447FC000 ∧ 0x447FC000 ≤ SharedExp.c65408 ∧ 25 ≤ 31 ∧
+    CF32.expField 0x447FC000 ≤ 25 + 111 ∧ 0x447FC000 < CF32.posInf ∧
+    CF32.fmul 0x447FC000 (CF32.twoPowi (-1)) = 0x43FFC000 := by decide +kernel
 -- the loop guard can cut the loop short, and `max_iter` cuts it when the guard never does
 example : refineIters (fun i => i < 2) 10 10 0 = 2 ∧ refineIters (fun _ => true) 4 100 0 = 4 := by
   decide
